@@ -267,10 +267,10 @@ Section Converters.
   Proof. intros Hk. unfold convert_destructuring. lst_conv Hk costs_convert_param. Qed.
   Lemma costs_convert_params t kids c u : kids_ok kids -> costs (convert_params swidth cfg t kids c u) (sumN W kids).
   Proof. intros Hk. unfold convert_params. lst_conv Hk costs_convert_param. Qed.
-  Lemma costs_convert_parenthesized_impl t kids c : kids_ok kids -> costs (convert_parenthesized_impl swidth cfg t kids c) (sumN W kids).
+  Lemma costs_convert_parenthesized_impl t kids c emb : kids_ok kids -> costs (convert_parenthesized_impl swidth cfg t kids c emb) (sumN W kids).
   Proof. intros Hk. unfold convert_parenthesized_impl. lst_conv Hk costs_call_pattern. Qed.
 
-  Lemma costs_convert_parenthesized t kids c : kids_ok kids -> costs (convert_parenthesized swidth cfg t kids c) (sumN W kids).
+  Lemma costs_convert_parenthesized t kids c emb : kids_ok kids -> costs (convert_parenthesized swidth cfg t kids c emb) (sumN W kids).
   Proof.
     intros Hk. unfold convert_parenthesized.
     destruct (find (fun b => is_pattern (bt b)) kids) as [p|] eqn:Ef; [|apply costs_convert_parenthesized_impl; assumption].
@@ -1303,6 +1303,17 @@ Section Converters.
     - eapply costs_weaken; [apply costs_convert_destructuring; exact Hk|lia].
   Qed.
 
+  Lemma costs_convert_embedded_expr self c :
+    good node_ok self -> costs (convert_embedded_expr swidth cfg self c) (2 + sumN W (bkids self)).
+  Proof.
+    intros Hg. unfold convert_embedded_expr.
+    destruct (kind_eqb (bk self) KParenthesized); [|apply costs_convert_expr; assumption].
+    replace (2 + sumN W (bkids self)) with (1 + (1 + sumN W (bkids self))) by lia.
+    apply costs_bind; [apply costs_bump|]. intros _.
+    unfold check_disabled. destruct (a_disabled (attrs_of (bt self))); [apply costs_ret_any|].
+    eapply costs_weaken; [apply costs_convert_parenthesized; apply (good_kids _ _ Hg)|lia].
+  Qed.
+
   Lemma costs_step t kids r :
     kids_ok kids -> map bt kids = children t -> wfc_node t = true ->
     (match r with RFuncArgs _ (TableCols _) => has_parenthesized_args kids = true | _ => True end) ->
@@ -1319,6 +1330,7 @@ Section Converters.
     - eapply costs_weaken; [apply costs_convert_markup_impl; exact Hk|cbn [bkids self]; lia].
     - eapply costs_weaken; [apply costs_convert_math; exact Hk|cbn [bkids self]; lia].
     - eapply costs_weaken; [apply costs_convert_content_block; exact Hk|cbn [bkids self]; lia].
+    - eapply costs_weaken; [apply costs_convert_embedded_expr; exact Hg|cbn [bkids self]; lia].
     - eapply costs_weaken; [apply costs_convert_parenthesized; exact Hk|cbn [bkids self]; lia].
     - eapply costs_weaken; [apply costs_convert_named; exact Hk|cbn [bkids self]; lia].
     - eapply costs_weaken; [apply costs_convert_keyed; exact Hk|cbn [bkids self]; lia].
